@@ -5,6 +5,11 @@ Tie (DESIGN §7 C16, §4(b)): random designed networks x random request batches 
 the amplifiers, low p_max amplifiers, fixed and automatic modes, uni/bidirectional, blocked requests: no route, strict
 include that cannot be met, no mode / no baud rate fitting) are run through the real `planning()`:
    the whole batch, every request alone, 3 random permutations — all on the SAME designed network object.
+   Batches contain twins (identical requests, legitimately aggregated) and near-twins that differ from their original in
+   exactly ONE attribute (tx_power, power, spacing, channel count, include list, LOOSE/STRICT, bidirectional, mode).
+   30 % of the cases go through the API instead of the JSON loader: PathRequest objects built directly (optional fields
+   omitted when they have their default) + correct_json_route_list / compute_path_dsjctn / compute_path_with_disjunction;
+   a request built without its optional fields must also behave like the one with the defaults spelled out.
  * oracle (python, field by field, 1e-9): route, mode, blocking reason (spectrum reasons and N/M excluded), receiver
    GSNR/OSNR figures of both directions are those of the request alone; `network_to_json` and a deep attribute snapshot of
    every element are the same before and after every run.
@@ -79,16 +84,93 @@ def gen_case(rng):
                 'explicit-route-usage': 'route-include-ero', 'index': 0,
                 'num-unnum-hop': {'node-id': f'roadm {other}', 'link-tp-id': 'x', 'hop-type': hop}}]}
         reqs.append(r)
-    # twins: same endpoints and transceiver settings (aggregated by planning), possibly differing in bidirectionality
-    if rng.random() < 0.25:
-        t = copy.deepcopy(rng.choice(reqs))
+    # twins.  planning() aggregates requests that agree on EVERY attribute compare_reqs looks at; a near-twin differs from
+    # its original in exactly one of them (chosen uniformly) and must keep its own result
+    r = rng.random()
+    if r < 0.6:
+        base = pick_fixed(rng, reqs, modes, band)
+        reqs.append(near_twin(rng, base, str(len(reqs)), modes, names, band))
+    elif r < 0.75:
+        t = copy.deepcopy(pick_fixed(rng, reqs, modes, band))
         t['request-id'] = str(len(reqs))
-        if rng.random() < 0.5:
-            t['bidirectional'] = not t['bidirectional']
         t['path-constraints']['te-bandwidth']['path_bandwidth'] = rng.choice([100e9, 300e9])
         reqs.append(t)
-    return {'kind': 'batch', 'env': env, 'modes': modes, 'requests': reqs,
-            'perm_seed': rng.randrange(1 << 30)}
+    case = {'kind': 'batch', 'env': env, 'modes': modes, 'requests': reqs, 'perm_seed': rng.randrange(1 << 30)}
+    if rng.random() < 0.3:
+        # API-level stream: PathRequest objects built directly, optional fields left out when they have their default
+        case['api'] = {'omit': [rng.random() < 0.7 for _ in reqs]}
+    return case
+
+
+def pick_fixed(rng, reqs, modes, band):
+    """a request of the batch with an explicit mode (only those are aggregated); one is made if there is none"""
+    fixed = [r for r in reqs if r['path-constraints']['te-bandwidth']['trx_mode'] is not None]
+    if fixed:
+        return rng.choice(fixed)
+    r = rng.choice(reqs)
+    m = rng.choice(modes)
+    te = r['path-constraints']['te-bandwidth']
+    te['trx_mode'] = m['format']
+    te['spacing'] = next(s for s in c13.SPACINGS if s >= m['min_spacing'])
+    te['max-nb-of-channel'] = None
+    return r
+
+
+TWIN_ATTRS = ['tx_power', 'power', 'spacing', 'nb_channel', 'nodes_list', 'loose_list', 'bidir', 'mode']
+
+
+def near_twin(rng, base, rid, modes, names, band):
+    t = copy.deepcopy(base)
+    t['request-id'] = rid
+    te = t['path-constraints']['te-bandwidth']
+    te['path_bandwidth'] = rng.choice([100e9, 300e9])                 # not compared: never prevents aggregation
+    mode = next(m for m in modes if m['format'] == te['trx_mode'])
+    attrs = TWIN_ATTRS[:]
+    rng.shuffle(attrs)
+    for a in attrs:
+        if a == 'tx_power':
+            # -30 dBm is below what the add ROADM can equalise: the figures depend on it
+            te['tx_power'] = rng.choice([v for v in (1e-6, 1e-5, 1e-3, 2e-3) if v != te.get('tx_power')])
+        elif a == 'power':
+            te['output-power'] = rng.choice([v for v in (1e-3, 3e-3, 5e-4, 2e-3) if v != te.get('output-power')])
+        elif a == 'spacing':
+            ok = [s for s in c13.SPACINGS if s >= mode['min_spacing'] and s != te['spacing'] and int(band // s) >= 2
+                  and (te.get('max-nb-of-channel') or 0) <= int(band // s)]
+            if not ok:
+                continue
+            te['spacing'] = rng.choice(ok)
+        elif a == 'nb_channel':
+            fit = int(band // te['spacing'])
+            ok = [k for k in range(2, fit + 1) if k != te.get('max-nb-of-channel')]
+            if not ok:
+                continue
+            te['max-nb-of-channel'] = rng.choice(ok)
+        elif a == 'nodes_list':
+            site = t['source'].split()[-1]
+            cur = [o['num-unnum-hop']['node-id'] for o in
+                   t.get('explicit-route-objects', {}).get('route-object-include-exclude', [])]
+            if f'roadm {site}' in cur:
+                t.pop('explicit-route-objects')
+            else:
+                t['explicit-route-objects'] = {'route-object-include-exclude': [{
+                    'explicit-route-usage': 'route-include-ero', 'index': 0,
+                    'num-unnum-hop': {'node-id': f'roadm {site}', 'link-tp-id': 'x', 'hop-type': 'LOOSE'}}]}
+        elif a == 'loose_list':
+            objs = t.get('explicit-route-objects', {}).get('route-object-include-exclude', [])
+            if not objs:
+                continue
+            h = objs[0]['num-unnum-hop']
+            h['hop-type'] = 'LOOSE' if h['hop-type'] == 'STRICT' else 'STRICT'
+        elif a == 'bidir':
+            t['bidirectional'] = not t['bidirectional']
+        elif a == 'mode':
+            ok = [m for m in modes if m['format'] != te['trx_mode'] and m['min_spacing'] <= te['spacing']]
+            if not ok:
+                continue
+            te['trx_mode'] = rng.choice(ok)['format']
+        t['twin_of'] = [base['request-id'], a]
+        return t
+    return t
 
 
 # ------------------------------------------------------------------ snapshots
@@ -146,7 +228,7 @@ def snap_diff(a, b):
 
 
 # ------------------------------------------------------------------ implementation driver
-def signature(res):
+def signature(res, with_json=True):
     """the non-spectrum part of what planning reports for one request"""
     rq = res.path_request
     reason = getattr(rq, 'blocking_reason', None)
@@ -158,7 +240,7 @@ def signature(res):
             rx = pth[-1]
             figs[name] = {k: [float(x) for x in getattr(rx, k)] for k in ('snr_01nm', 'osnr_ase_01nm', 'snr', 'osnr_ase')}
     try:
-        js = res.json
+        js = res.json if with_json else {}
         props = js.get('path-properties') or (js.get('no-path') or {}).get('path-properties')
         metrics = None
         if props:
@@ -167,8 +249,10 @@ def signature(res):
                        for k in ('path-metric', 'z-a-path-metric') if k in props}
     except Exception as e:                                           # consistent failures are compared like values
         metrics = f'E:{type(e).__name__}'
+    echo = {'spacing': rq.spacing, 'power': rq.power, 'tx_power': rq.tx_power, 'nb_channel': rq.nb_channel,
+            'f_max': rq.f_max, 'bidir': rq.bidir}
     return {'route': [el.uid for el in res.computed_path], 'mode': rq.tsp_mode, 'reason': reason,
-            'baud_rate': rq.baud_rate, 'bidir': rq.bidir, 'figs': figs, 'metrics': metrics}
+            'baud_rate': rq.baud_rate, 'bidir': rq.bidir, 'figs': figs, 'metrics': metrics, 'echo': echo}
 
 
 def run_planning(E, reqs):
@@ -188,6 +272,61 @@ def run_planning(E, reqs):
     return sigs
 
 
+def api_request(E, r, omit):
+    """the PathRequest of a request description, built through the API the way requests_from_json fills it; with `omit`
+    the optional fields that have their documented default (no include list, unidirectional) are simply not passed"""
+    from gnpy.core.equipment import trx_mode_params
+    from gnpy.core.utils import automatic_nch, automatic_fmax, dbm2watt
+    from gnpy.topology.request import PathRequest
+    te = r['path-constraints']['te-bandwidth']
+    nd = sorted(r.get('explicit-route-objects', {}).get('route-object-include-exclude', []), key=lambda x: x['index'])
+    params = {'request_id': str(r['request-id']), 'source': r['source'], 'destination': r['destination'],
+              'bidir': r['bidirectional'], 'trx_type': te['trx_type'], 'trx_mode': te['trx_mode'], 'format': te['trx_mode'],
+              'spacing': te['spacing'], 'nodes_list': [n['num-unnum-hop']['node-id'] for n in nd],
+              'loose_list': [n['num-unnum-hop']['hop-type'] for n in nd]}
+    params.update(trx_mode_params(E.eq, te['trx_type'], te['trx_mode'], True))
+    params['power'] = te.get('output-power')
+    if params['power'] is None:
+        params['power'] = dbm2watt(E.eq['SI']['default'].power_dbm)
+    if te.get('max-nb-of-channel') is not None:
+        params['nb_channel'] = te['max-nb-of-channel']
+        params['f_max'] = automatic_fmax(params['f_min'], params['spacing'], params['nb_channel'])
+    else:
+        params['nb_channel'] = automatic_nch(params['f_min'], params['f_max'], params['spacing'])
+    params['path_bandwidth'] = te['path_bandwidth']
+    params['tx_power'] = te.get('tx_power')
+    if params['tx_power'] is None:
+        dflt = E.eq['SI']['default'].tx_power_dbm
+        params['tx_power'] = dbm2watt(dflt) if dflt is not None else params['power']
+    if omit:
+        if not params['nodes_list']:
+            params.pop('nodes_list')
+            params.pop('loose_list')
+        if not params['bidir']:
+            params.pop('bidir')
+    return PathRequest(**params)
+
+
+def run_api(E, reqs, omit):
+    """planning()'s computation steps on PathRequest objects built directly (no JSON loader, no aggregation, no spectrum)"""
+    import gnpy.topology.request as rq
+    from gnpy.core.elements import Edfa
+    designed = {el.uid: el.effective_gain for el in E.net.nodes() if isinstance(el, Edfa)}
+    rqs = [api_request(E, r, o) for r, o in zip(reqs, omit)]
+    rqs = rq.correct_json_route_list(E.net, rqs)
+    pths = rq.compute_path_dsjctn(E.net, E.eq, rqs, [])
+    prop, rev, revprop = rq.compute_path_with_disjunction(E.net, E.eq, rqs, pths)
+    sigs = {}
+    for r, pth, rpth in zip(rqs, prop, revprop):
+        res = rq.ResultElement(r, pth, rpth)
+        s = signature(res, with_json=False)
+        s['_clamped'] = any(isinstance(el, Edfa) and el.effective_gain < designed[el.uid] - 1e-9
+                            for p in (pth, rpth or []) for el in p)
+        s['aggregated'] = None
+        sigs[r.request_id] = s
+    return sigs
+
+
 def drive(case):
     import random
     from gnpy.core.exceptions import ServiceError, EquipmentConfigError, NetworkTopologyError, DisjunctionError
@@ -199,9 +338,17 @@ def drive(case):
     j0, d0 = snapshot(E.net)
     obs = {'net0': digest([j0, d0]), 'runs': [], 'alone': {}, 'uids': [el.uid for el in E.net.nodes()]}
 
-    def one(name, rs):
+    api = case.get('api')
+    omit_of = dict(zip(ids, api['omit'])) if api else {}
+
+    def runner(env_obj, rs, explicit=False):
+        if api:
+            return run_api(env_obj, rs, [False if explicit else omit_of[r['request-id']] for r in rs])
+        return run_planning(env_obj, rs)
+
+    def one(name, rs, explicit=False):
         try:
-            sigs = run_planning(E, rs)
+            sigs = runner(E, rs, explicit)
             exc = None
         except (ServiceError, EquipmentConfigError, NetworkTopologyError, DisjunctionError, ValueError) as e:
             sigs, exc = {}, type(e).__name__
@@ -209,9 +356,13 @@ def drive(case):
         rec = {'name': name, 'order': [r['request-id'] for r in rs], 'sigs': sigs, 'exc': exc,
                'net': digest([j1, d1]), 'json_same': j1 == j0, 'deep_diff': snap_diff(d0, d1) if d1 != d0 else []}
         return rec
+    obs['alone_explicit'] = {}
     for r in reqs:
         rec = one('alone:' + r['request-id'], [r])
         obs['alone'][r['request-id']] = rec
+        if api and omit_of[r['request-id']]:
+            # the same request with its optional fields spelled out
+            obs['alone_explicit'][r['request-id']] = one('alone-explicit:' + r['request-id'], [r], explicit=True)
     obs['runs'].append(one('batch', reqs))
     prng = random.Random(case['perm_seed'])
     for k in range(3):
@@ -225,7 +376,7 @@ def drive(case):
     rq.deepcopy = lambda x: x
     try:
         try:
-            s2 = run_planning(E2, reqs)
+            s2 = runner(E2, reqs)
         except Exception as e:
             s2 = {'exc': type(e).__name__}
     finally:
@@ -248,6 +399,9 @@ def same_sig(a, b):
     for k in ('route', 'mode', 'reason', 'baud_rate'):
         if a[k] != b[k]:
             return f'{k}: {a[k]} / {b[k]}'
+    for k in a['echo']:
+        if a['echo'][k] != b['echo'][k]:
+            return f"request parameter {k} carried by the result: {a['echo'][k]} / {b['echo'][k]}"
     if sorted(a['figs']) != sorted(b['figs']):
         return f"directions with figures: {sorted(a['figs'])} / {sorted(b['figs'])}"
     for d in a['figs']:
@@ -263,7 +417,9 @@ def same_sig(a, b):
 # ------------------------------------------------------------------ model side (validator)
 def sig_lit(s, uidx, modeidx):
     route = listlit([zlit(uidx[u]) for u in s['route']])
-    figs = []
+    e = s['echo']
+    figs = [int(round((e['spacing'] or 0) / 1e6)), int(round((e['power'] or 0) * 1e9)), int(round((e['tx_power'] or 0) * 1e9)),
+            int(e['nb_channel'] or 0), int(round((e['f_max'] or 0) / 1e6)), int(bool(e['bidir']))]
     for d in ('fwd', 'rev'):
         if d in s['figs']:
             figs.append(1 if d == 'fwd' else 2)
@@ -279,7 +435,7 @@ def term(case, obs):
     rid = {r['request-id']: i for i, r in enumerate(case['requests'])}
     alone = [f"({rid[i]}, {sig_lit(rec['sigs'][i], uidx, modeidx)})" for i, rec in obs['alone'].items() if i in rec['sigs']]
     runs = []
-    for rec in obs['runs'] + list(obs['alone'].values()):
+    for rec in obs['runs'] + list(obs['alone'].values()) + list((obs.get('alone_explicit') or {}).values()):
         res = [f"({rid[i]}, {sig_lit(s, uidx, modeidx)})" for i, s in rec['sigs'].items()]
         runs.append(f"rn {zlit(obs['net0'])} {zlit(rec['net'])} {listlit(res)}")
     return f"obs_case {zlit(obs['net0'])} {listlit(alone)} {listlit(runs)}"
@@ -307,6 +463,13 @@ def judge(ctx, case, obs):
             ok = False
             ctx.violation('network_changed', f"run {rec['name']}: designed network differs after planning "
                           f"(network_to_json same: {rec['json_same']}); {rec['deep_diff']}", pub)
+    for i, rec in (obs.get('alone_explicit') or {}).items():
+        d = same_sig(obs['alone'][i]['sigs'].get(i), rec['sigs'].get(i)) if not (rec['exc'] or obs['alone'][i]['exc']) \
+            else (True if rec['exc'] == obs['alone'][i]['exc'] else f"{obs['alone'][i]['exc']} / {rec['exc']}")
+        if d is not True:
+            ok = False
+            ctx.violation('omitted_defaults_differ', f'request {i} alone, built without its optional fields vs with the '
+                          f'documented defaults spelled out: {d}', pub, detail={'request': i, 'difference': d})
     if any(rec['exc'] for rec in obs['alone'].values()):
         # a request that cannot even be loaded stops the whole batch: nothing to compare (malformed stream)
         ctx.count('batches_with_refused_request')
@@ -353,7 +516,8 @@ def run(ctx):
     rng = ctx.rng
     ctx.proof = common.check_props('C16')
     ctx.rule = ('random 2-5 ROADM networks (random amplifier p_max incl. a saturating region, 5-24 channel bands) x batches of '
-                '2-7 requests (fixed / automatic mode, offsets, bidirectional, channel counts, include constraints, twins); '
+                '2-7 requests (fixed / automatic mode, offsets, bidirectional, channel counts, include constraints, twins and '
+                'near-twins differing in one compared attribute; 30 % built through the PathRequest API); '
                 'each case = 1 batch + every request alone + 3 permutations on the same designed network; non-trivial = at '
                 'least one accepted and one blocked request, or a saturating request (an amplifier clamps); '
                 'distinct by content hash')
@@ -373,7 +537,11 @@ def run(ctx):
         nontriv = (any(r is None for r in reasons) and any(r is not None for r in reasons)) or bool(obs['nocopy']['net_changed'])
         ctx.case(case_public(c), nontriv)
         ctx.count('requests', len(c['requests']))
-        ctx.count('planning_runs', len(obs['runs']) + len(obs['alone']))
+        ctx.count('cases_api_stream' if c.get('api') else 'cases_planning')
+        for r in c['requests']:
+            if r.get('twin_of'):
+                ctx.count('near_twin_' + r['twin_of'][1])
+        ctx.count('planning_runs', len(obs['runs']) + len(obs['alone']) + len(obs.get('alone_explicit') or {}))
         for r in reasons:
             ctx.count('reason_' + str(r))
         for s in batch['sigs'].values():
